@@ -38,6 +38,7 @@ type c04Cfg struct {
 	Writers           int
 	Embedded          bool
 	Layout            string
+	CompactionThld    int `json:",omitempty"` // 0 = 1
 }
 
 func c04RequiredNodeSize(maxKeyLen int) int {
@@ -90,13 +91,17 @@ func (l *c04Logger) last() string {
 }
 
 func (c c04Cfg) options() *store.Options {
+	thld := c.CompactionThld
+	if thld == 0 {
+		thld = 1
+	}
 	io := store.DefaultIndexOptions().
 		WithMaxBulkSize(c.Bulk).WithAdaptiveBulkSize(c.Adaptive).
 		WithBulkPreparationTimeout(time.Duration(c.TimeoutMs) * time.Millisecond).
 		WithFlushThld(c.FlushThld).WithSyncThld(c.SyncThld).
 		WithMaxNodeSize(c.NodeSize).WithCacheSize(c.CacheSize).
 		WithMaxBufferedDataSize(c.MaxBuffered).WithMaxGlobalBufferedDataSize(c.MaxGlobalBuffered).
-		WithCompactionThld(1).WithDelayDuringCompaction(0)
+		WithCompactionThld(thld).WithDelayDuringCompaction(0)
 	return store.DefaultOptions().WithIndexOptions(io).WithLogger(quietLogger()).
 		WithMultiIndexing(true).WithSynced(c.Synced).WithSyncFrequency(2 * time.Millisecond).
 		WithMaxKeyLen(c.MaxKeyLen).WithMaxTxEntries(c.MaxTxEntries).WithMaxValueLen(1 << 12).
@@ -324,6 +329,18 @@ type c04Case struct {
 	thorough bool
 	dropped bool
 	log     *c04Logger
+	// compaction stage (c04compact.go)
+	hook   *c04DumpHook // hook of the appendable factory inside the dump of a compaction (nil: default appendables)
+	ops    []string     // executed operations, for the replay of a failure
+	kind   string       // replay kind ("" = store-case)
+	caseNo int
+	comps  []c04Compaction // every restart from a dump so far
+	// set once a genuine, registered race of the repository has been WITNESSED in this case (c04compact.go): what the
+	// oracle finds from then on is reported as a consequence of it
+	raceSig, raceWhy string
+	foreign          map[string]bool // receivers of doIndexing goroutines that are not this store's (present before Open)
+	oldErrs          []string        // errors the store logged before the last reopen
+	unsafeRestart    bool            // a restart from a dump happened while an indexing goroutine may have been inside indexSince
 }
 
 func (c *c04Case) emit(op, impl string) {
@@ -333,10 +350,44 @@ func (c *c04Case) emit(op, impl string) {
 }
 
 func (c *c04Case) replay(detail string) c04Replay {
+	if c.kind != "" {
+		return c04Replay{Kind: c.kind, Case: c.no, Seed: c.seed, CaseNo: c.caseNo, Cfg: c.cfg, Detail: detail, Ops: append([]string{}, c.ops...)}
+	}
 	return c04Replay{Kind: "store-case", Case: c.no, Seed: c.seed, Cfg: c.cfg, Detail: detail}
 }
 
 func (c *c04Case) fail(sig, desc string) {
+	if c.raceSig != "" && !strings.HasPrefix(sig, "C04:harness:") && sig != c.raceSig {
+		c.r.Count("compact.consequence-of-witnessed-race." + sig)
+		desc = fmt.Sprintf("consequence of %s — observed as %s: %s", c.raceWhy, sig, desc)
+		sig = c.raceSig
+	} else if c.kind == "compact-case" && !strings.HasPrefix(sig, "C04:harness:") && sig != c04SigRestartRace && sig != c04SigIndexerGone && sig != c04SigRegressedSrc {
+		if why := c.foreignInsertLogged(); why != "" && c.unsafeRestart {
+			// D1, second witness (see c04compact.go): the tree rejected an insert of the indexer because ANOTHER
+			// inserter had moved its ts on
+			c.r.OracleChecks++
+			c.r.Count("compact.witness.foreign-insert-logged")
+			c.raceSig = c04SigRestartRace
+			c.raceWhy = "an indexing goroutine that outlived restartIndex inserted its bulk into the reopened dump (the store logged: " + why + ")"
+			c.op("WITNESS %s", c.raceWhy)
+			c.r.Fail(c04SigRestartRace, "the store logged "+why+": the tree of an index rejected the bulk of its indexer because another inserter had already moved the tree's ts beyond it — the indexing goroutine that restartIndex did not wait for inserted the bulk it had prepared against the closed tree into the reopened dump (between `idx.index = index` and resume() it still sees the cancelled ctx afterwards and returns: no second goroutine is left to be seen)", c.replay(c.raceWhy))
+			c.lines = nil
+			c.dropped = true
+			c.fail(sig, desc)
+			return
+		}
+		all, dup := c.ownIndexingGoroutines()
+		var errs []string
+		if c.log != nil {
+			c.log.mu.Lock()
+			errs = append(errs, c.log.errs...)
+			c.log.mu.Unlock()
+		}
+		if len(errs) > 6 {
+			errs = errs[len(errs)-6:]
+		}
+		desc += fmt.Sprintf(" [diagnosis: indexing goroutines %v, duplicated %v, %d indexes; errors logged by the store: %q]", all, dup, len(c.defs), errs)
+	}
 	c.r.Fail(sig, desc, c.replay(desc))
 }
 
@@ -381,8 +432,21 @@ func c04Commit(st *store.ImmuStore, tx c04Tx, async bool) (uint64, error) {
 }
 
 func (c *c04Case) open() error {
+	if c.log != nil {
+		c.log.mu.Lock()
+		c.oldErrs = append(c.oldErrs, c.log.errs...)
+		c.log.mu.Unlock()
+	}
 	c.log = &c04Logger{}
-	st, err := store.Open(c.dir, c.cfg.options().WithLogger(c.log))
+	opts := c.cfg.options().WithLogger(c.log)
+	if c.hook != nil {
+		opts.WithAppFactory(c.hook.factory())
+		c.foreign = map[string]bool{}
+		for k := range c04IndexingReceivers() {
+			c.foreign[k] = true
+		}
+	}
+	st, err := store.Open(c.dir, opts)
 	if err != nil {
 		return err
 	}
@@ -740,6 +804,18 @@ func (c *c04Case) checkpoint(final bool) error {
 			}
 		}
 		diff := c.ref.classify(i, real, c.cfg.Bulk, srcTainted)
+		if c.kind == "compact-case" && srcTainted && diff.sigs[c04SigAlias] != "" {
+			// (the store cases attribute this to the key aliasing; here the source deviates for another reason)
+			diff = c04Diff{tainted: true}
+			diff.add(c04SigContent, fmt.Sprintf("index %d (%x), injective: differs from the log downstream of a source index that differs from the log", i, d.Tgt))
+		}
+		if diff.sigs != nil && c.kind == "compact-case" && c.raceSig == "" && d.Inj {
+			// compaction stage: an injective indexer that read its source index while a compaction had regressed it
+			if desc, ok := c.explainedByRegressedSource(i, real); ok {
+				diff = c04Diff{tainted: true}
+				diff.add(c04SigRegressedSrc, desc)
+			}
+		}
 		c.r.OracleChecks++
 		c.r.Eval(fmt.Sprintf("content/%s/%s/b%d/i%d", c.cfg.Mode, c.cfg.Layout, c.cfg.Bulk, i), len(c.ref.idx[i]) > 1)
 		if diff.sigs != nil {
@@ -798,7 +874,7 @@ func (c *c04Case) checkOneLive(i int, real c04Content, now int64, diff c04Diff) 
 	c.r.OracleChecks++
 	for sk, live := range rows {
 		if len(live) > 1 {
-			if diff.sigs[c04SigInjBulk] != "" || diff.sigs[c04SigTombMd] != "" || diff.sigs[c04SigAlias] != "" {
+			if diff.sigs[c04SigInjBulk] != "" || diff.sigs[c04SigTombMd] != "" || diff.sigs[c04SigAlias] != "" || diff.sigs[c04SigRegressedSrc] != "" {
 				c.r.Count("store.onelive.violated-by-known-finding")
 				return
 			}
